@@ -157,6 +157,14 @@ fn check_lua(text: &str, data: &Data, plain_lua: bool) -> Option<String> {
 const AWKWARD_STRINGS: &[&str] = &[
     "", "a", "end", "nil", "1a", "a b", "a\"b", "a'b", "a\\b", "a\nb", "a\r\nb", "é", "\u{0}", "\u{7f}", "]]", "[[", "--", "\t", "\\n", "\u{feff}x", "😀", "a]=]b", "'\"", "\u{1}1", "0", "-1", "true", "%s", "{}", "`x`",
     "long long long long long long long long long long long long long long long\nwith\nseveral\nlines\nin\nit\nand more",
+    // long texts (the writers switch to long-bracket form) with carriage returns, which long brackets cannot hold
+    "line one\r\nline two\r\nline three\r\nline four\r\nline five\r\nline six\r\nline seven\r\n",
+    "a single carriage return in the middle of a long enough text\rthat is otherwise printable ASCII only",
+    "\r\nstarts with a line break and is long enough to be written in the long bracket form, really",
+    "\nstarts with a line feed and is long enough to be written in the long bracket form, really it is",
+    "ends with a bracket and is long enough to be written in the long bracket form, really it is ]",
+    "contains ]] and ]=] and is long enough to be written in the long bracket form, really it is so",
+    "tab\tand form feed\x0c and vertical tab\x0b in a text long enough for the long bracket form, really",
 ];
 
 fn scalars() -> Vec<serde_json::Value> {
